@@ -141,8 +141,9 @@ def scanQuoted (q : Char) : St → List Char → Sub
           -- scanEscape advances over the backslash, the loop's advance over `d`
           ((scanQuoted q ((s.adv c).adv d) ds).cons2 c d).setBackslash
         else
+          -- a backslash that is the last character of its line: the range ends behind it, inside that line
           (((scanQuoted q (s.adv c) (d :: ds)).cons c).setBackslash).addDiag
-            ⟨.malformedLiteral, s.pos, ⟨s.pos.line, s.pos.col + 2⟩⟩
+            ⟨.malformedLiteral, s.pos, ⟨s.pos.line, s.pos.col + (if d = '\n' then 1 else 2)⟩⟩
       | [] =>
         -- the backslash is the last character of the source: the range ends behind it (inside the file)
         ((({ st := s.adv c, consumed := [], rest := [] } : Sub).cons c).setBackslash).addDiag
